@@ -10,6 +10,7 @@ def showOpt : Option Nat → String
 def showB (b : Bool) : String := if b then "1" else "0"
 
 def showTask : TaskId → String
+  | .t0 => "t0"
   | .d => "d"
   | .e => "e"
   | .a i => s!"a{i}"
@@ -19,13 +20,17 @@ def showList (xs : List String) (sep : String) : String :=
 
 /-- awaiters and reader tasks are numbered separately, each in spawn order -/
 def taskName (s : State) : TaskId → String
+  | .t0 => "t0"
   | .d => "d"
   | .e => "e"
   | .a i =>
     match s.aws[i]? with
     | some a =>
       let k := ((s.aws.take i).filter fun b => b.kind == a.kind).length
-      (if a.kind == .reader then "r" else "a") ++ toString k
+      match a.kind with
+      | .reader => "r" ++ toString k
+      | .awaiter => "a" ++ toString k
+      | .tick => "t" ++ toString (k + 1)
     | none => "?"
 
 def obs (s : State) : String :=
@@ -40,6 +45,7 @@ def obs (s : State) : String :=
 def kinds : List String := ["arc", "arena", "arc-unsync", "arena-unsync"]
 def resKinds : List String := ["res", "res-arc", "res-blocking"]
 def onceKinds : List String := ["once", "once-arc"]
+def localKinds : List String := ["local", "local-arc"]
 
 def parseEff : String → Option EffKind
   | "none" => some .none
@@ -51,12 +57,14 @@ def parseEff : String → Option EffKind
 def parseCfg4 (kind srcs ini eff : String) (via : Bool) : Option Cfg :=
   let res := resKinds.contains kind
   let once := onceKinds.contains kind
-  if !(kinds.contains kind || res || once) then none else
+  let loc := localKinds.contains kind
+  if !(kinds.contains kind || res || once || loc) then none else
   match (srcs.splitOn ",").mapM String.toNat?, parseEff eff with
   | some vs, some e =>
     if vs.isEmpty || vs.length > 3 then none else
-    if ini == "-" then some { srcs := vs, init := none, eff := e, viaMemo := via, res := res, once := once }
-    else if res || once then none
+    if ini == "-" then
+      some { srcs := vs, init := none, eff := e, viaMemo := via, res := res, once := once, isLocal := loc }
+    else if res || once || loc then none
     else ini.toNat?.map fun v => { srcs := vs, init := some v, eff := e, viaMemo := via }
   | _, _ => none
 
@@ -74,6 +82,8 @@ def stepOp (s : State) (w : List String) : Option State :=
   -- a `OnceResource` has no sources to write, no `refetch`, no `Write` impl and no `by_ref`
   if s.once && (w.head? == some "set" || w.head? == some "refetch" || w.head? == some "mset" ||
       w == ["attach", "b"]) then none else
+  -- a `LocalResource` has no `Write` impl, no `ready()`, no `by_ref()`
+  if s.isLocal && (w.head? == some "mset" || w == ["attach", "b"] || w == ["attach", "r"]) then none else
   match w with
   | ["set", i, v] =>
     match i.toNat?, v.toNat? with
